@@ -115,6 +115,7 @@ pub fn gen_cov_case(rng: &mut Rng, tier: &str, prop: &str) -> Case {
             "bin_count" => match rng.weighted(&[20, 50, 30]) { 0 => 1, 1 => rng.usize(2, 6), _ => rng.usize(7, 24) },
             "order" => if rng.chance(1, 2) { 0 } else { rng.range(1, 1 << 40) },
             "stale" => if rng.chance(1, 8) { rng.range(1, 1 << 40) } else { 0 },
+            "dirty" => if rng.chance(1, 6) { rng.range(1, 1 << 40) } else { 0 },
         },
         extra,
     }
@@ -220,6 +221,23 @@ impl Engine for C08 {
             .map(|e| write_input(&dir, "alt", &e.records, &e.container));
         let out_dir = dir.join("out");
         std::fs::create_dir_all(&out_dir).unwrap();
+        // chunk files (and maybe a table) of an earlier, interrupted count in this directory
+        let dirty = case.params.get("dirty").and_then(|v| v.as_u64()).unwrap_or(0);
+        let kk = case.p_u64("k") as usize;
+        let real: Vec<u64> = if dirty != 0 {
+            // k-mers of the coverage records and of the counting input
+            case.records
+                .iter()
+                .chain(case.extra.iter().flat_map(|e| e.records.iter()))
+                .take(12)
+                .flat_map(|r| model::canonical_kmers(r.seq.as_bytes(), kk).into_iter().take(64))
+                .collect()
+        } else {
+            Vec::new()
+        };
+        if stale_counter_files(&out_dir, dirty, case.p_u64("threads").max(1) + 2, kk, &real) {
+            out.probe("dirty_output_directory", 1);
+        }
         if stale_output(&out_dir.join("kmers.vectors"), case.params.get("stale").and_then(|v| v.as_u64()).unwrap_or(0)) {
             out.probe("stale_output_file", 1);
         }
